@@ -428,11 +428,12 @@ func (f *vhfsFile) RenameAt(oldName string, newDir File, newName string) error {
 func (f *vhfsFile) Renamed(parent File, newName string) {
 	fs := f.fs
 	fs.mu.Lock()
-	defer fs.mu.Unlock()
 	p := parent.(*vhfsFile)
 	nm := vhfsNameID(newName)
 	fs.begin(10, f.id, p.id, nm)
 	f.path = append(append([]int{}, p.path...), nm)
+	fs.mu.Unlock()
+	fs.park(10, f.id, 0)
 }
 
 func (f *vhfsFile) Close() error {
